@@ -55,3 +55,18 @@ Proof.
     + intros c0. unfold set. destruct (c0 =? next V s); reflexivity.
 Qed.
 End Eq.
+
+(* ---- the forwarding members: tools/cxxpolyp2coq.py lists the members of the class template it has checked to be one-statement forwarders
+   (same-named operation of poly_obj(), own parameters in order); the operations the other properties speak about are among them *)
+From Coq Require Import String List.
+Definition forwarders_needed : list string :=
+  ("operator+" :: "operator-" :: "operator*" :: "operator==" :: "operator!=" :: "operator==(poly_p)" :: "operator!=(poly_p)" :: "operator()" :: "load" ::
+   "ntt_pow_phi" :: "invntt_pow_invphi" :: "serialize_manually" :: "deserialize_manually" :: "serialize" :: "set" :: "set_mpz" :: "poly2mpz" :: "mpz2poly" ::
+   "get_modulus" :: nil)%string.
+Definition covered (need have : list string) : bool := forallb (fun m => existsb (String.eqb m) have) need.
+Lemma covered_In need have : covered need have = true -> forall m, In m need -> In m have.
+Proof.
+  unfold covered. rewrite forallb_forall. intros H m Hm. specialize (H m Hm). apply existsb_exists in H. destruct H as [x [Hx E]]. apply String.eqb_eq in E. subst. exact Hx.
+Qed.
+Theorem forwarders_cover : (forall m, In m forwarders_needed -> In m gen_pp_forwarders) /\ (39 <= length gen_pp_forwarders)%nat.
+Proof. split; [apply covered_In; vm_compute; reflexivity | vm_compute; repeat constructor]. Qed.
